@@ -6,14 +6,14 @@ from .c05 import content_field_writes, node_of
 
 LEVEL = 'other'
 RULES = {
-    'C04.R1': 'who may write node functions (AffContent.aff) outside constructors: from_poly (fresh root), apply_func_at_node, update_node, remove_axes, unary_op_inplace',
+    'C04.R1': 'who may write node functions (AffContent.aff) outside constructors: from_poly (fresh root), apply_func_at_node, update_node, remove_axes, unary_op_inplace; who may write the cached state / witnesses (AffContent.state): new nodes start Indeterminate (shared with C05.R2)',
     'C04.R2': 'shape of what is written: composition kernels keep the input dimension (rows(A) x n), apply_func visits all terminals, remove_axes rewrites every node and in_dim together, decisions are copied with their row count',
     'C04.R3': 'a removal must not leave a decision without children (a childless decision is flagged as terminal)',
     'C04.R4': 'every call of Tree::merge_child_with_parent (asserts exactly one child) is preceded by the removal of the node\'s other children and guarded by the single-survivor conditions',
 }
 CONTROL_REV = '078b142'  # thorough tier: the rules must still report the defects found (and since fixed) on the original tree
 CONTROLS = [('C04.R3', 'AffTree::generic_composition_inplace#call:Tree::remove_child'), ('C04.R3', 'AffTree::infeasible_elimination#call:Tree::try_remove_child')]
-FLOORS = {'C04.R1': 5, 'C04.R2': 15, 'C04.R3': 5, 'C04.R4': 7}
+FLOORS = {'C04.R1': 8, 'C04.R2': 15, 'C04.R3': 5, 'C04.R4': 7}
 EXPLANATION = 'Input-dimension / common-output-dimension preservation, absence of the childless-decision state, absence of the merge assertion panic, for all histories.'
 DOES_NOT_DECIDE = 'panics reachable through unwrap/indexing inside ndarray/minilp; numeric content of node functions'
 ALLOWED_WRITERS = {
@@ -185,6 +185,17 @@ def r4(ctx):
 
 def run(ctx):
     r1(ctx)
+    # the cached feasibility state carries witness points; a state that travels from another tree (copied with a node's content) holds
+    # points of that tree's input space, and the next elimination / pruned operation evaluates them against this tree's rows (shape panic):
+    # the writers of AffContent.state are the clause decided under C05.R2
+    from ..core import Ctx
+    from . import c05
+    sub = Ctx(ctx.facts, ctx.tier, ctx.prop)
+    c05.r2(sub)
+    for i in sub.insts:
+        if i.rule == 'C05.R2':
+            i.rule = 'C04.R1'
+            ctx.insts.append(i)
     r2(ctx)
     prune.check_childless(ctx, 'C04.R3')
     r4(ctx)
